@@ -47,6 +47,7 @@ THEOREMS = [
     "OllamaVerif.C17.one_final_generate_fixedD",
     "OllamaVerif.C17.one_final_chat_fixedD",
     "OllamaVerif.C17.tokenize_failure_after_done",
+    "OllamaVerif.C17.tools_equiv_fixed_monotone",
     "OllamaVerif.C17.client_generate_equiv",
     "OllamaVerif.C17.client_chat_equiv",
     "OllamaVerif.Tie.C17.reason_table_complete",
